@@ -33,6 +33,11 @@ def _regen_dict_cnt():
     return hashmapcnt.regenerate()
 
 
+def _regen_tl_parser():
+    from ..translate import tlengine
+    return tlengine.regenerate()
+
+
 SPEC = dict(
     manifest=dict(
         category='proof',
@@ -90,7 +95,8 @@ SPEC = dict(
              'Lean proves for all inputs that this copy computes exactly the regenerated functions (so the transformation is not trusted for values), that for EVERY cell tree, int key length k and fuel >= 2k+2 the '
              'fuel-exhaustion line is never reached (recursion depth <= k+1 levels: of the code as written, not of the cost model), and that on the tree unfolded from any well-formed cost-model graph its call count IS dictCalls of the cost model, with the same '
              'returned / raised outcome - so c19_dict_output (4(entries+stops)-2 calls) and c19_dict_depth_le_keylen (<= 2^(n+2)-2 calls) are statements about parse.py. The tick placement is validated on every change: calls counted by Lean = calls CPython makes '
-             '(counting wrappers) on 271 cells. The unary-loop iterations (dictParse steps) and the BoC / TL / order counters remain cost model + measurement.',
+             '(counting wrappers) on 271 cells. The unary-loop iterations (dictParse steps) and the BoC / TL / order counters remain cost model + measurement. '
+             'TL PARSER ON THE SOURCE: TlSchemas.deserialize is regenerated from tl/generator.py on every run (Generated/TlEngine.lean, shared with C14) and proved equal to the C14 hand model for all inputs; c19_src_tl_total (Properties/C14.lean, which can import that model) proves that for every table with distinct field names and no cycle of bare references and EVERY byte string the regenerated code run with recursion depth (len/4+1)(R+2) and len+2 iterations of its while loop returns what it returns with any larger budgets - no loop or recursion of the code as written runs beyond a bound in the input length (each while iteration consumes >= 1 content byte or breaks; the vector loop is bounded by the guard); the step COUNT stays the cost model\'s (c19_tl_total).',
         level_note='Trusted: Lean kernel (propext, Classical.choice, Quot.sound); Model/Cost.lean as a hand transcription of the loops of '
                    'cell.py (order, to_boc, __init__/calculate_hashes), deserialize.py, hashmap/parse.py, tl/generator.py (upper-bound '
                    'convention: validity failures that only cut work short are not modelled); harness/translate/tl_cost.py + TlEnv (the bundled '
@@ -104,8 +110,9 @@ SPEC = dict(
                  ('tl/generator.py bytes framing + vector guard->Generated/TlFraming.lean', arith2.regenerator('TlFraming')),
                  ('deserialize.py deserialize_boc_header, deserialize_cell, deserialize->Generated/BocHeader.lean, BocCells.lean', _regen_boc_parser),
                  (_emit_tie_name(), _regen_boc_emitter),
-                 ('hashmap/parse.py parse + deserialize_hashmap_node->Generated/HashmapCnt.lean (calls counted)', _regen_dict_cnt)],
-    lean_targets=['TonVerif.Proofs.SrcBocDeser', 'TonVerif.Proofs.SrcOrderAny', 'TonVerif.Proofs.SrcBocAny'],
+                 ('hashmap/parse.py parse + deserialize_hashmap_node->Generated/HashmapCnt.lean (calls counted)', _regen_dict_cnt),
+                 ('tl/generator.py TlSchemas.deserialize->Generated/TlEngine.lean (c19_src_tl_total, stated in Properties/C14.lean)', _regen_tl_parser)],
+    lean_targets=['TonVerif.Proofs.SrcBocDeser', 'TonVerif.Proofs.SrcOrderAny', 'TonVerif.Proofs.SrcBocAny', 'TonVerif.Proofs.SrcTlParser'],
     design_ref='DESIGN.md §6 C19',
     rule='one case = one public call on one adversarial input with its model step count; families: double/triple-ref chains 10..1000, '
          'depth-1023 chains, diamonds, wide sharing, random DAGs (order, to_boc x flag sets, from_boc, construction); BoC byte strings '
